@@ -301,7 +301,9 @@ class CLexer:
             fail("filename before line number in #line", pos)
             return
 
-        m = re.match(_decimal_constant, line[pos:])
+        # The line number is a digit-sequence (C99 6.10.4): always decimal,
+        # leading zeros allowed, no suffix.
+        m = re.match(r"[0-9]+", line[pos:])
         if not m:
             fail("invalid #line directive", pos)
             return
